@@ -291,12 +291,15 @@ def sto(B, x):
     return "new" if z is None else ["o", z]
 
 
-def obs(x, B, seen=None, with_ident=True):
-    """canonical form of a real tensordict-like object; 'cyclic' when a node contains itself"""
+def obs(x, B, seen=None, with_ident=True, light=False):
+    """canonical form of a real tensordict-like object; 'cyclic' when a node contains itself.
+    light: leaves as (storage, version counter) instead of values — enough to see whether anything was written"""
     if x is None:
         return None
     seen = seen or ()
     if isinstance(x, torch.Tensor):
+        if light:
+            return ["L", sto(B, x), ["v", x._version, x.data_ptr()]]
         if x.device.type == "meta":
             return ["L", sto(B, x) if with_ident else "-", ["meta", list(x.shape)]]
         return ["L", sto(B, x) if with_ident else "-", x.detach().to(torch.int64).reshape(-1).tolist()]
@@ -312,7 +315,7 @@ def obs(x, B, seen=None, with_ident=True):
     out = []
     for k in td.keys():
         v = td._get_str(k, None) if hasattr(td, "_get_str") else td.get(k)
-        c = obs(v, B, seen + (id(x), id(td)), with_ident)
+        c = obs(v, B, seen + (id(x), id(td)), with_ident, light)
         if c == "cyclic" or (isinstance(c, list) and c and c[0] == "cyclic"):
             return "cyclic"
         out.append([k, c])
